@@ -146,9 +146,13 @@ package motion
 //@ iface (l RecordingListener) RecordingEnded
 //@   mode trusted
 
+// isNullOrNullPointer: nil interface, or an interface holding a nil pointer. The body is
+// checked; what is assumed is reflect's meaning of IsNil for the pointer inside i.
 //@ func isNullOrNullPointer(i)
-//@   mode trusted
-//@   ensures result == (isnil(i) || ref(i) == 0)
+//@   mode permissive
+//@   call IsNil#1 given_after $result == (ref(i) == 0)
+//@   call ValueOf#1 assert [C12,C17] $0 == i
+//@   ensures [C12,C17] result == (isnil(i) || ref(i) == 0)
 
 //@ functype FrameParser(raw, out, edge) (err)
 //@   mode trusted
